@@ -198,15 +198,16 @@ Create ==
           TakeF(<<"CreateNumber", n, f>>, f, CreateNumber(h, roots, n, f), CreateNumber(h, roots, n, 0))
      \/ \E k \in LeafKinds \cap {"str", "raw"}, s \in Strs, f \in Fails(2) :
           TakeF(<<"CreateStr", k, s, f>>, f, CreateStr(h, roots, k, s, f), CreateStr(h, roots, k, s, 0))
-     \/ /\ F("ref")
+     \/ /\ (F("ref") \/ F("refcont"))
         /\ \/ \E s \in Strs, f \in Fails(1) :
-                TakeF(<<"CreateStringReference", s, f>>, f, CreateStringReference(h, roots, s, f), CreateStringReference(h, roots, s, 0))
+                F("ref") /\ TakeF(<<"CreateStringReference", s, f>>, f, CreateStringReference(h, roots, s, f), CreateStringReference(h, roots, s, 0))
            \/ \E k \in {"arr", "obj"}, c \in MaybeNull(Live(h)), f \in Fails(1) :
+                (k \in LeafKinds \/ F("ref")) /\
                 TakeF(<<"CreateContReference", k, c, f>>, f, CreateContReference(h, roots, k, c, f), CreateContReference(h, roots, k, c, 0))
 
 Add ==
   \/ \E p \in MaybeNull(Arrs), i \in MaybeNull(Loose) :
-        /\ F("arr")
+        /\ (F("arr") \/ F("addarr"))
         /\ (p # NULL /\ i # NULL /\ p # i) => CanHold(p, i)
         /\ Take(<<"AddItemToArray", p, i>>, AddItemToArray(h, roots, p, i))
   \/ \E p \in MaybeNull(Objs), key \in KeyArgs, i \in MaybeNull(Loose), f \in Fails(1) :
@@ -461,6 +462,9 @@ Strs1 == {<<120>>}
 StrSeq1 == <<<<120>>>>
 KindsA == {"arr"}
 FeatRK == {"obj", "ref"}
+\* a reference node whose child pointer designates an element in the middle of a chain (cJSON_CreateArrayReference(second element)), duplicated
+FeatRD == {"addarr", "refcont", "dup"}
+RDConstraint == Cardinality({i \in Live(h) : h[i].ref}) <= 1 /\ Cardinality(roots) <= 3
 \* a reference to an item that stands in the middle of another container, with the key copy refused
 FeatRF == {"arr", "refobj", "fail"}
 \* keys "a" and "ba": the suffix of one is the other
